@@ -45,6 +45,11 @@ func c02Scenarios() []hpScenario {
 	add("upstream closes between sequential", hpScenario{Hosts: 1, RouteTimeoutMs: 1000, Sequential: true, Requests: []hpRequest{rq("t1", true, upClose), rq("t2", true, upReply200)}})
 	add("retry next to a plain request", hpScenario{Hosts: 2, RouteTimeoutMs: 1000, RetryOn: true, NumRetries: 1, OneChunk: true, Requests: []hpRequest{rq("t1", true, upReply5xx, upReply200), rq("t2", true, upReply200)}})
 	add("split reply next to a plain request", hpScenario{Hosts: 1, RouteTimeoutMs: 1000, OneChunk: true, Reverse: true, Requests: []hpRequest{rq("t1", true, upReplySplit), rq("t2", true, upReply200)}})
+	reenc := map[string]interface{}{"response_headers_to_add": []interface{}{map[string]interface{}{"header": map[string]interface{}{"key": "via", "value": "mosn"}, "append": false}}}
+	add("unknown id reply then body-less reply (response re-encoded)", hpScenario{Hosts: 1, RouteTimeoutMs: 1000, RouteExtra: reenc, Requests: []hpRequest{rq("t1", true, upUnkNoBody)}})
+	add("late reply then body-less reply (response re-encoded)", hpScenario{Hosts: 1, RouteTimeoutMs: 1000, TryTimeoutMs: 100, RouteExtra: reenc, Sequential: true, Requests: []hpRequest{rq("t1", true, upLateOK), rq("t2", true, upReplyNoBody)}})
+	add("duplicate reply then body-less reply (response re-encoded)", hpScenario{Hosts: 1, RouteTimeoutMs: 1000, RouteExtra: reenc, Sequential: true, Requests: []hpRequest{rq("t1", true, upReplyDup), rq("t2", true, upReplyNoBody)}})
+	add("body-less replies reversed (response re-encoded)", hpScenario{Hosts: 1, RouteTimeoutMs: 1000, RouteExtra: reenc, OneChunk: true, Reverse: true, Requests: []hpRequest{rq("t1", true, upReply200), rq("t2", true, upReplyNoBody)}})
 	add("one-way next to two-way", hpScenario{Hosts: 1, RouteTimeoutMs: 1000, OneChunk: true, Requests: []hpRequest{{Token: "t1", Oneway: true, Body: true, Script: []string{upReply200}}, rq("t2", true, upReply200)}})
 	return out
 }
@@ -110,7 +115,13 @@ func c02Run(p *vreport.Part, sc hpScenario, replay bool) bool {
 				if f.Token != want {
 					report("response delivered to a request it was not produced for (header)", fmt.Sprintf("request %s (id %d) got header token %q body token %q", want, f.ID, f.Token, f.BodyToken))
 				}
-				if f.BodyToken != want {
+				wantBody := want
+				for _, a := range rq.Script {
+					if a == upReplyNoBody || a == upUnkNoBody {
+						wantBody = "" // the scripted reply has no body
+					}
+				}
+				if f.BodyToken != wantBody {
 					report("response header and body come from different exchanges", fmt.Sprintf("request %s (id %d) got header token %q body token %q", want, f.ID, f.Token, f.BodyToken))
 				}
 			} else {
